@@ -16,7 +16,8 @@ CHECKS = {
             "variant, boundary lengths up to 4-byte headers) are encoded and decoded by the blocking, async and poll decoders; the "
             "oracle is the inverse (equality with the original, exact total, body bytes unchanged). Boundary-size constructions put "
             "the remaining length and every v5 property section (also the will's) at -2..+5 around 128 / 16,384 / 2,097,152, go beyond "
-            "16 MiB and up to 268,435,455 (thorough), and include multi-byte payloads flagged as UTF-8. Exploration is the right level: "
+            "16 MiB and up to 268,435,455 (thorough), include multi-byte payloads flagged as UTF-8, and long lists: 255 .. 65,537 topics, "
+            "codes and user properties (counts around the widths a counter might have). Exploration is the right level: "
             "the space is unbounded and the oracle is exact, so a counterexample search with shrinking is what can be built.",
             "No counterexample among the generated cases; absence outside them is not established. " + TRUST,
             "DESIGN.md §7 C01"),
@@ -45,7 +46,8 @@ CHECKS = {
             "spelling the grammar allows, the same with one to three injected catalogue malformations, and byte-mutated bodies with a "
             "re-synthesised header. The strict poll decoder must accept exactly when the reference decoder (MQTT grammar + pinned "
             "leniencies) accepts, and on acceptance the normalised field values, total and body bytes must agree. Every reject class "
-            "of the reference decoder has to be reached or the run reports broken machinery.",
+            "of the reference decoder has to be reached or the run reports broken machinery. Every frame with a body of up to 2 bytes "
+            "and every short byte sequence as string content (UTF-8 well-formedness against std) are enumerated.",
             "No disagreement among the generated frames. The reference decoder and the pinned grammar (DESIGN.md §5) are the trusted oracle. " + TRUST,
             "DESIGN.md §7 C04"),
     "C05": ("exploration",
@@ -54,7 +56,9 @@ CHECKS = {
             "(well-formed, malformed, truncated, with trailing bytes) every composition of the stream into reads is run with and "
             "without Pending before every read and with the future dropped and re-created from the caller-held state at every "
             "Pending; longer generated streams (1-4 byte headers) get random schedules, and PUBLISH streams with 2-4 byte headers "
-            "every split of their first 8 bytes. Each run must equal the uninterrupted run, "
+            "every split of their first 8 bytes. Further modes continue from a clone of the caller-held state, let the transport fill "
+            "the ReadBuf by initialize+advance, and insert a transient transport failure (Interrupted / WouldBlock / TimedOut) before "
+            "every read, which the decoder must hand on and after which the caller polls again. Each run must equal the uninterrupted run, "
             "return Pending only when the transport did, never request more than the frame still needs, and consume what it reports.",
             "Exhaustive for the listed streams up to 15 (quick) / 18 (thorough) bytes; random beyond. The frame end used by the capacity check comes from the harness' own header parse. " + TRUST,
             "DESIGN.md §7 C05"),
@@ -63,14 +67,18 @@ CHECKS = {
             "Byte strings from the shared corpus generator (valid, re-spelled, leniently framed, malformed, mutated, random) are given "
             "to the blocking, async and poll decoders of both families: blocking must equal async with EOF mapped to Ok(None) (also "
             "for bare headers) on every string; on strings starting with a complete frame a poll acceptance must be matched by both "
-            "lenient decoders and a poll rejection other than InvalidRemainingLength must be returned identically by both.",
+            "lenient decoders and a poll rejection other than InvalidRemainingLength must be returned identically by both. Bare fixed "
+            "headers are compared across all four ways to one (Header::decode, decode_async, new_with, new from parts). Every frame "
+            "with a body of up to 2 bytes is enumerated.",
             "No disagreement among the generated strings. " + TRUST,
             "DESIGN.md §7 C06"),
     "C07": ("exploration",
             "property-based testing (proptest over choice tapes) x enumeration of cut positions; classification oracle",
             "For generated valid packets every strict prefix of the encoding (all cut positions for encodings up to 400 bytes, "
             "every field boundary and sampled positions beyond) must be reported as incomplete by all three decoders, and the "
-            "encoding followed by arbitrary bytes must decode to the same packet with exactly its own bytes consumed.",
+            "encoding followed by arbitrary bytes must decode to the same packet with exactly its own bytes consumed. The end of the "
+            "stream is presented as an empty read, as Err(UnexpectedEof) from the transport (any error payload shape), and after the "
+            "prefix trickled in byte by byte.",
             "No counterexample among the generated (packet, cut, suffix) cases. " + TRUST,
             "DESIGN.md §7 C07"),
     "C08": ("exploration",
@@ -110,7 +118,8 @@ CHECKS = {
             "Every packet returned by any front-end for a generated byte string is walked field by field (exhaustive destructuring): "
             "text fields are re-validated with std's UTF-8 check, topic names and filters with the library's and the harness' "
             "predicates, shared-subscription accessors are exercised against the split of the text, pids, var-int fields and "
-            "UTF-8-flagged payloads are checked. All ~70 field labels must be reached.",
+            "UTF-8-flagged payloads are checked. All ~70 field labels must be reached. Every 1-/2-byte sequence and about 90,000 "
+            "(thorough: 1.1 M) 3- and 4-byte sequences are placed inside text fields and whatever is accepted is walked.",
             "No counterexample among the generated accepted inputs. " + TRUST,
             "DESIGN.md §7 C12"),
     "C13": ("exploration",
@@ -118,13 +127,15 @@ CHECKS = {
             "Generated valid CONNECTs of each family are presented to the other family's three decoders: exact UnexpectedProtocol "
             "error, byte count consumed by the async decoder, and continuation through decode_with_protocol compared with the native "
             "decode; large CONNECTs (property sections around every width boundary and around the other family's largest possible "
-            "CONNECT, v3 CONNECTs with up to five 65,535-byte fields) are included. All 256 levels x 19 protocol names are checked "
-            "against both families, all front-ends and Protocol::new.",
+            "CONNECT, v3 CONNECTs with up to five 65,535-byte fields) are included, and so are partly buffered CONNECTs: from the end "
+            "of the level byte on, every shorter buffer must already be refused in the same way. All 256 levels x about 150 protocol "
+            "names (every single-edit neighbour and padding of the legal ones) are checked against both families, all front-ends and Protocol::new.",
             "No counterexample among the generated CONNECTs; the grid is enumerated completely. " + TRUST,
             "DESIGN.md §7 C13"),
     "C14": ("fault_enumeration",
             "fault injection enumerated over byte positions and error kinds on generated packets (proptest-driven), scripted transports",
-            "For generated valid packets a read error of each of five io::ErrorKinds is injected at every byte position (and EOF at "
+            "For generated valid packets a read error (17 io::ErrorKinds, six payload shapes: message, bare kind, nested io::Error of "
+            "another kind, source chain, OS code, boxed) is injected at every byte position (and EOF at "
             "every position) into the async and poll decoders under one-shot and chunked delivery; a write error or zero-length "
             "write at every position into the async encoder and the streaming body encoders; boundary-size packets (16 KiB - 2 MiB "
             "payloads and property sections) get faults at field boundaries and at positions spread over the whole encoding. The "
@@ -137,7 +148,9 @@ CHECKS = {
             "var-int writer, size function, both readers, total_len/header_len/remaining_len and, for boundary and sampled values, "
             "the poll decoder's header state machine (header delivered in one read, byte by byte with Pending, and with the future "
             "re-created at every Pending) and partial-write sinks, and compared with a closed-form model; the first invalid values and all 9,330 "
-            "continuation-bit patterns of up to five bytes are checked for rejection / EOF classification. In the thorough tier the "
+            "continuation-bit patterns of up to five bytes are checked for rejection / EOF classification. The readers inside packet "
+            "bodies are observed through v5 packets whose property length is re-written in 1-4 bytes (exact consumption demanded "
+            "for the nine packet types in which the count is observable). In the thorough tier the "
             "finite domain is enumerated completely (evidence: exhaustive = true).",
             "The arithmetic model (base-128 little endian, width thresholds 2^7, 2^14, 2^21, 2^28) is trusted. Quick tier is a sample. " + TRUST,
             "DESIGN.md §7 C15"),
@@ -147,14 +160,16 @@ CHECKS = {
             "and behind 11 prefix shapes, 0.9 M medium-length strings with special characters at every position of runs of up to 70 "
             "ordinary (ASCII and multi-byte) characters, structured and random strings around 65,535 bytes, are given to TopicFilter::is_invalid, the "
             "constructor and the v3/v5 SUBSCRIBE/UNSUBSCRIBE decoders; all must agree with a predicate written from the "
-            "specification by splitting on '/'. The stated bounded space is enumerated completely.",
+            "specification by splitting on '/'. Every Unicode scalar value is tried in seven positions and every ordered pair of "
+            "prefix shapes in front of all short tails. The stated bounded space is enumerated completely.",
             "Exhaustive only inside the bounded space (length <= 6 quick, <= 8 / 7 thorough); longer strings are sampled. " + TRUST,
             "DESIGN.md §7 C16"),
     "C17": ("exploration",
             "bounded-exhaustive enumeration of valid filters; accessor results vs harness-computed split; algebraic laws of Eq/Ord/Hash",
             "Every valid filter of C16's space: share-name/filter accessors must return the unique split computed by the harness, "
             "text round-trips, and equality, ordering (antisymmetric, transitive, Equal iff same text, partial_cmp = cmp) and hashing "
-            "depend only on the text, including values built from separate allocations and by decoding a SUBSCRIBE.",
+            "depend only on the text, including values built from separate allocations and by decoding a SUBSCRIBE; the same for "
+            "filters built around every Unicode scalar value and behind every ordered pair of prefix shapes.",
             "Pairs/triples are neighbours and pseudo-random partners inside enumeration blocks, not all pairs. " + TRUST,
             "DESIGN.md §7 C17"),
     "C18": ("exploration",
@@ -162,7 +177,8 @@ CHECKS = {
             "All strings up to a length bound over a 9-character alphabet, alone and behind '$share/', '$SYS/' and near-miss "
             "prefixes, 0.9 M medium-length strings with a forbidden character at every position of runs of up to 70 characters, and "
             "structured and random strings around 65,535 bytes: TopicName::is_invalid, the constructor (read-back, is_shared, is_sys) and "
-            "the PUBLISH / will / response-topic decoders of both families must agree with: <= 65,535 bytes and no '+', '#', U+0000.",
+            "the PUBLISH / will / response-topic decoders of both families must agree with: <= 65,535 bytes and no '+', '#', U+0000. "
+            "Every Unicode scalar value is tried in five positions.",
             "Exhaustive only inside the bounded space (length <= 6 quick, <= 7 thorough). " + TRUST,
             "DESIGN.md §7 C18"),
     "C19": ("exploration",
@@ -177,7 +193,8 @@ CHECKS = {
             "Every applicable entry of a 30-entry malformation catalogue is applied to generated valid packets at every site where it "
             "applies (each string field, property, code byte, length); the blocking, async and poll decoders must return exactly "
             "the error variant and payload the catalogue documents (with the stated poll/blocking exception for inner lengths past "
-            "the frame end). Expectations never come from running another front-end.",
+            "the frame end). Expectations never come from running another front-end. The poll decoder must give the same answer when "
+            "the frame arrives piecewise with a Pending and transient transport failures on the way.",
             "No misclassification among the generated (packet, entry, site) cases; the catalogue's expectations (DESIGN.md Appendix C) are trusted. " + TRUST,
             "DESIGN.md §7 C20"),
 }
